@@ -1526,6 +1526,24 @@ impl Gen<'_> {
         out.push(Stmt::Expr(call(&g, vec![])));
         out.push(shout(call(&h, vec![plain("top")])));
         out.push(shout(call(&k, vec![])));
+        if self.rng.chance(1, 2) {
+            // a function whose body defines another function under its own name: a call of that
+            // name in the body reaches the inner one (no recursion), from outside the outer one
+            let ss = self.fresh_name("w");
+            let q = self.fresh_name("p");
+            let inner_tag = self.str_lit();
+            let inner = mk(&ss, vec![q.clone()], vec![Stmt::Return(Some(bin(BinOp::Add, inner_tag, var(&q))))]);
+            let mut body = vec![Stmt::Return(Some(bin(BinOp::Add, call(&ss, vec![plain("x")]), bin(BinOp::Add, plain("|"), var(&q)))))];
+            let at = self.rng.usize(2);
+            if self.rng.chance(1, 3) {
+                body = vec![Stmt::Block(Block { stmts: { let mut b = body; b.insert(0, inner); b } })];
+            } else {
+                body.insert(at.min(body.len()), inner);
+                // a definition after the `return` is still visible throughout the block
+            }
+            out.push(mk(&ss, vec![q.clone()], body));
+            out.push(shout(call(&ss, vec![plain("t")])));
+        }
         if !defs_first {
             out.append(&mut defs);
         }
